@@ -217,6 +217,16 @@ impl UnitRunner for C09 {
       let rare = TOKENS.is_rare((unit / nt) as usize) || TOKENS.is_rare((unit % nt) as usize);
       if unit % nt == 0 { inputs.push((a.to_string(), "1-token")); }
       inputs.push((format!("{}{}", a, b), "2-token"));
+      // the same pair on the second of three lines, under each line terminator (error ranges count lines: a CRLF is one terminator)
+      for nl in ["\r\n", "\r", "\n"] { inputs.push((format!("x := 1{nl}{a}{b}{nl}z := 3", nl = nl, a = a, b = b), "line-endings")); }
+      if unit == 0 {
+        // every spelling of a code fence: sigil x tag (incl. the emoji spelling and suffixes) x body x closer
+        for sigil in ["```", "~~~", "````"] { for tag in ["", "mech", "mec", "🤖", "mech:ns", "mec:ns", "🤖:ns", "mech:hidden", "🤖:hidden", "mech:disabled", "🤖:disabled", "🤖🤖", "mechdown", "python", "mech {a: 1}", "🤖 {a: 1}", "é", "日本:x"] {
+          for body in ["x := 1", "x := )", "", "x := 1\ny := ("] { for close in [true, false] { for nl in ["\n", "\r\n"] {
+            inputs.push((format!("{s}{t}{nl}{b}{nl}{c}{nl}after := 2", s = sigil, t = tag, nl = nl, b = body, c = if close { sigil } else { "" }), "fence-tags"));
+          } } }
+        } }
+      }
       // quick: the third token ranges over the 26 construct-opening/closing tokens; thorough: over the whole alphabet
       let core3: Vec<&str> = TOKENS.all().into_iter().filter(|t| self.tier == Tier::Thorough || (!rare && ["[", "]", "{", "}", "(", ")", "|", "\"", "```", "--", ":=", "\n", "x", "1", ";", "{{", "$$", "<"].contains(t)) || (rare && ["[", "(", "\n", "x", "|", "\"", "⸥", "⸢"].contains(t))).collect();
       for c in core3.iter() { inputs.push((format!("{}{}{}", a, b, c), "3-token")); }
